@@ -1,10 +1,649 @@
 import FluentProofs.Cache
 /-!
 # Lemmas about the cache LTS: wake-up bookkeeping (no lost wake-up), progress, bounded drain
+
+`WakeInv x s` is the bookkeeping invariant of `pending_wakes`, stated as the code makes it true.
+`x = some c` is the intermediate form that holds while task `c` is being polled (after the executor
+cleared `woken c`, before `poll_next` has either delivered or re-registered `c`'s waker).
 -/
 namespace FluentProofs.Cache
 open FluentModel.Cache
 
 variable {α : Type}
+
+/-- a request that returned `Pending` and whose task has not been woken since -/
+def Parked (s : St α) (t : Task) : Prop := (s.cons t).waiting = true ∧ (s.cons t).woken = false
+
+structure WakeInv (x : Option Task) (s : St α) : Prop where
+  /-- only requests in flight wait -/
+  act : ∀ t, (s.cons t).waiting = true → (s.cons t).active = true
+  /-- every waker in `pending_wakes` belongs to a waiting request that stands at the end of the cache -/
+  pend : ∀ t, t ∈ s.pending → (s.cons t).waiting = true ∧ (s.cons t).curr = s.items.length
+  /-- every parked request stands at the end of the cache and its waker is in `pending_wakes` -/
+  park : ∀ t, x ≠ some t → Parked s t → (s.cons t).curr = s.items.length ∧ t ∈ s.pending
+  /-- the waker the source holds is the last one registered (also in `pending_wakes`), its request
+  waits at the end of the cache, and the source really is pending -/
+  srcw : ∀ w, s.src.waker = some w → s.src.need ≠ 0 ∧ (s.cons w).waiting = true ∧
+      (s.cons w).curr = s.items.length ∧ s.pending.getLast? = some w
+  /-- while anybody is parked, either the source holds a waker, or a waiting request at the end of
+  the cache is runnable (or is the one being polled right now) -/
+  hope : (∃ t, x ≠ some t ∧ Parked s t) → s.src.waker ≠ none ∨
+      ∃ w, (s.cons w).waiting = true ∧ (s.cons w).curr = s.items.length ∧
+        ((s.cons w).woken = true ∨ x = some w)
+
+theorem wakeInv_init (script : List (Nat × α)) (e : Nat) : WakeInv none (init script e) := by
+  constructor <;> simp [init, Parked]
+
+/-- consumer `c` stops waiting somewhere else than at the end of the cache; nothing else changes -/
+theorem wakeInv_leave {s : St α} {c : Task} (f : Consumer α → Consumer α)
+    (hne : (s.cons c).curr ≠ s.items.length) (hf : (f (s.cons c)).waiting = false)
+    (hs : WakeInv (some c) s) : WakeInv none (s.modCons c f) := by
+  have hpc : c ∉ s.pending := fun h => hne (hs.pend c h).2
+  refine ⟨?_, ?_, ?_, ?_, ?_⟩
+  · intro t; by_cases ht : t = c
+    · subst ht; simp [hf]
+    · simpa [ht] using hs.act t
+  · intro t htp
+    have ht : t ≠ c := fun h => hpc (h ▸ htp)
+    simpa [ht] using hs.pend t htp
+  · intro t _ hp
+    by_cases ht : t = c
+    · subst ht; simp [Parked, hf] at hp
+    · have : Parked s t := by simpa [Parked, ht] using hp
+      simpa [ht] using hs.park t (by simp [Ne.symm ht]) this
+  · intro w hw
+    have h := hs.srcw w hw
+    have ht : w ≠ c := fun e => hne (e ▸ h.2.2.1)
+    simpa [ht] using h
+  · rintro ⟨t, _, hp⟩
+    have ht : t ≠ c := by
+      intro e; subst e; simp [Parked, hf] at hp
+    have hp' : Parked s t := by simpa [Parked, ht] using hp
+    rcases hs.hope ⟨t, by simp [Ne.symm ht], hp'⟩ with h | ⟨w, hw1, hw2, hw3⟩
+    · exact Or.inl h
+    · have hwc : w ≠ c := fun e => hne (e ▸ hw2)
+      refine Or.inr ⟨w, ?_, ?_, Or.inl ?_⟩
+      · simpa [hwc] using hw1
+      · simpa [hwc] using hw2
+      · rcases hw3 with h | h
+        · simpa [hwc] using h
+        · exact absurd (Option.some.inj h).symm hwc
+
+/-- after the source answered `Ready`, every registered waker has been called: nobody is parked -/
+theorem no_parked_after_ready {s : St α} {c : Task} (hs : WakeInv (some c) s) (src' : Source α)
+    (f : Consumer α → Consumer α) (its : List α) (hf : (f ((St.wakeAll { s with src := src', pending := [] } s.pending).cons c)).waiting = false)
+    (t : Task) :
+    ¬ Parked (St.modCons { (St.wakeAll { s with src := src', pending := [] } s.pending) with items := its } c f) t := by
+  intro hp
+  by_cases ht : t = c
+  · subst ht; simp [Parked, hf] at hp
+  · simp only [Parked, modCons_cons, ht, if_false, wakeAll_cons, Bool.or_eq_false_iff, decide_eq_false_iff_not] at hp
+    have := hs.park t (by simp [Ne.symm ht]) ⟨hp.1, hp.2.1⟩
+    exact hp.2.2 this.2
+
+theorem wakeInv_pollNext {s : St α} {c : Task} (hact : (s.cons c).active = true)
+    (hs : WakeInv (some c) s) : WakeInv none (pollNext s c).1 := by
+  have hc := pollNext_cases s c
+  generalize pollNext s c = r at hc
+  cases hc with
+  | cached h => exact wakeInv_leave _ (by omega) rfl hs
+  | over h => exact wakeInv_leave _ (by omega) rfl hs
+  | pend src' h hp =>
+    obtain ⟨hn, rfl⟩ := poll_pending hp
+    refine ⟨?_, ?_, ?_, ?_, ?_⟩
+    · intro t; by_cases ht : t = c
+      · subst ht; simp [hact]
+      · simpa [ht] using hs.act t
+    · intro t htp
+      by_cases ht : t = c
+      · subst ht; simp [h]
+      · have : t ∈ s.pending := by simpa [ht] using htp
+        simpa [ht] using hs.pend t this
+    · intro t _ hp
+      by_cases ht : t = c
+      · subst ht; simp [h]
+      · have hp' : Parked s t := by simpa [Parked, ht] using hp
+        have := hs.park t (by simp [Ne.symm ht]) hp'
+        simp [ht, this]
+    · intro w hw
+      have hw' : w = c := by simpa using hw.symm
+      subst hw'
+      refine ⟨?_, by simp, by simp [h], by simp⟩
+      simpa [Source.need] using hn
+    · intro _; left; simp
+  | item src' it h hp =>
+    obtain ⟨hn, n, r, hr, rfl⟩ := poll_ready_some hp
+    have hw : s.src.waker = none := by
+      cases hw : s.src.waker with
+      | none => rfl
+      | some w => exact absurd hn (hs.srcw w hw).1
+    have hnp := no_parked_after_ready hs { s.src with rest := r, polls := s.src.polls + 1, pulls := s.src.pulls + 1 }
+      (deliver ((s.cons c).curr + 1) [it]) (s.items ++ [it]) rfl
+    refine ⟨?_, ?_, ?_, ?_, ?_⟩
+    · intro t; by_cases ht : t = c
+      · subst ht; simp
+      · simpa [ht, wakeAll_cons] using hs.act t
+    · intro t htp; simp at htp
+    · intro t _ hp; exact absurd hp (hnp t)
+    · intro w hw'; simp [hw] at hw'
+    · rintro ⟨t, _, hp⟩; exact absurd hp (hnp t)
+  | ended src' h hp =>
+    obtain ⟨hn, hr, he, rfl⟩ := poll_ready_none hp
+    have hw : s.src.waker = none := by
+      cases hw : s.src.waker with
+      | none => rfl
+      | some w => exact absurd hn (hs.srcw w hw).1
+    have hnp := no_parked_after_ready hs { s.src with polls := s.src.polls + 1 }
+      (advance ((s.cons c).curr + 1)) s.items rfl
+    refine ⟨?_, ?_, ?_, ?_, ?_⟩
+    · intro t; by_cases ht : t = c
+      · subst ht; simp
+      · simpa [ht, wakeAll_cons] using hs.act t
+    · intro t htp; simp at htp
+    · intro t _ hp; exact absurd hp (hnp t)
+    · intro w hw'; simp [hw] at hw'
+    · rintro ⟨t, _, hp⟩; exact absurd hp (hnp t)
+
+
+/-- the executor takes task `c` off its run queue (clears `woken c`) and is about to poll it -/
+theorem wakeInv_clearWoken {s : St α} (c : Task) (hs : WakeInv none s) :
+    WakeInv (some c) (clearWoken s c) := by
+  unfold clearWoken
+  refine ⟨?_, ?_, ?_, ?_, ?_⟩
+  · intro t; by_cases ht : t = c
+    · subst ht; simpa using hs.act t
+    · simpa [ht] using hs.act t
+  · intro t htp; by_cases ht : t = c
+    · subst ht; simpa using hs.pend t htp
+    · simpa [ht] using hs.pend t htp
+  · intro t hx hp
+    have ht : t ≠ c := fun e => hx (by rw [e])
+    have hp' : Parked s t := by simpa [Parked, ht] using hp
+    simpa [ht] using hs.park t (by simp) hp'
+  · intro w hw
+    have h := hs.srcw w hw
+    by_cases ht : w = c
+    · subst ht; simpa using h
+    · simpa [ht] using h
+  · rintro ⟨t, hx, hp⟩
+    have ht : t ≠ c := fun e => hx (by rw [e])
+    have hp' : Parked s t := by simpa [Parked, ht] using hp
+    rcases hs.hope ⟨t, by simp, hp'⟩ with h | ⟨w, hw1, hw2, hw3⟩
+    · exact Or.inl h
+    · by_cases hwc : w = c
+      · subst hwc
+        exact Or.inr ⟨w, by simpa using hw1, by simpa using hw2, Or.inr rfl⟩
+      · refine Or.inr ⟨w, by simpa [hwc] using hw1, by simpa [hwc] using hw2, Or.inl ?_⟩
+        rcases hw3 with h | h
+        · simpa [hwc] using h
+        · cases h
+
+/-- a poll that does not clear the flag first (a further `poll_next` inside the same task poll, or
+any extra poll): the weaker intermediate invariant follows from the full one -/
+theorem wakeInv_weaken {s : St α} (c : Task) (hs : WakeInv none s) : WakeInv (some c) s := by
+  refine ⟨hs.act, hs.pend, fun t _ hp => hs.park t (by simp) hp, hs.srcw, ?_⟩
+  rintro ⟨t, _, hp⟩
+  rcases hs.hope ⟨t, by simp, hp⟩ with h | ⟨w, hw1, hw2, hw3⟩
+  · exact Or.inl h
+  · refine Or.inr ⟨w, hw1, hw2, ?_⟩
+    rcases hw3 with h | h
+    · exact Or.inl h
+    · cases h
+
+theorem wakeInv_startReq {s : St α} (c : Task) (d : Nat) (hs : WakeInv none s) :
+    WakeInv none (startReq s c d) := by
+  unfold startReq
+  split
+  · exact hs
+  · rename_i hna
+    have hnw : (s.cons c).waiting ≠ true := fun h => hna (hs.act c h)
+    have hpc : c ∉ s.pending := fun h => hnw (hs.pend c h).1
+    refine ⟨?_, ?_, ?_, ?_, ?_⟩
+    · intro t; by_cases ht : t = c
+      · subst ht; simp
+      · simpa [ht] using hs.act t
+    · intro t htp
+      have ht : t ≠ c := fun h => hpc (h ▸ htp)
+      simpa [ht] using hs.pend t htp
+    · intro t _ hp
+      by_cases ht : t = c
+      · subst ht; simp [Parked] at hp
+      · have hp' : Parked s t := by simpa [Parked, ht] using hp
+        simpa [ht] using hs.park t (by simp) hp'
+    · intro w hw
+      have h := hs.srcw w hw
+      have ht : w ≠ c := fun e => hnw (e ▸ h.2.1)
+      simpa [ht] using h
+    · rintro ⟨t, _, hp⟩
+      have ht : t ≠ c := by
+        intro e; subst e; simp [Parked] at hp
+      have hp' : Parked s t := by simpa [Parked, ht] using hp
+      rcases hs.hope ⟨t, by simp, hp'⟩ with h | ⟨w, hw1, hw2, hw3⟩
+      · exact Or.inl h
+      · have hwc : w ≠ c := fun e => hnw (e ▸ hw1)
+        refine Or.inr ⟨w, by simpa [hwc] using hw1, by simpa [hwc] using hw2, Or.inl ?_⟩
+        rcases hw3 with h | h
+        · simpa [hwc] using h
+        · cases h
+
+theorem wakeInv_finishReq {s : St α} (c : Task) (hs : WakeInv none s) :
+    WakeInv none (finishReq s c) := by
+  unfold finishReq
+  split
+  · exact hs
+  · rename_i hnw
+    refine ⟨?_, ?_, ?_, ?_, ?_⟩
+    · intro t; by_cases ht : t = c
+      · subst ht; intro h; simp at h; exact absurd h hnw
+      · simpa [ht] using hs.act t
+    · intro t htp; by_cases ht : t = c
+      · subst ht; simpa using hs.pend t htp
+      · simpa [ht] using hs.pend t htp
+    · intro t _ hp
+      by_cases ht : t = c
+      · subst ht
+        have hp' : Parked s t := by simpa [Parked] using hp
+        simpa using hs.park t (by simp) hp'
+      · have hp' : Parked s t := by simpa [Parked, ht] using hp
+        simpa [ht] using hs.park t (by simp) hp'
+    · intro w hw
+      have h := hs.srcw w hw
+      by_cases ht : w = c
+      · subst ht; simpa using h
+      · simpa [ht] using h
+    · rintro ⟨t, _, hp⟩
+      have hp' : Parked s t := by
+        by_cases ht : t = c
+        · subst ht; simpa [Parked] using hp
+        · simpa [Parked, ht] using hp
+      rcases hs.hope ⟨t, by simp, hp'⟩ with h | ⟨w, hw1, hw2, hw3⟩
+      · exact Or.inl h
+      · refine Or.inr ⟨w, ?_, ?_, Or.inl ?_⟩
+        · by_cases ht : w = c
+          · subst ht; simpa using hw1
+          · simpa [ht] using hw1
+        · by_cases ht : w = c
+          · subst ht; simpa using hw2
+          · simpa [ht] using hw2
+        · rcases hw3 with h | h
+          · by_cases ht : w = c
+            · subst ht; simpa using h
+            · simpa [ht] using h
+          · cases h
+
+theorem wakeInv_fireSrc {s : St α} (hs : WakeInv none s) : WakeInv none (fireSrc s) := by
+  unfold fireSrc
+  rcases fire_cases s.src with ⟨_, h⟩ | ⟨hn, src', h, _, _, _, _, _, hwn, _, _⟩
+  · rw [h]; exact hs
+  · rw [h]
+    cases hw : s.src.waker with
+    | none =>
+      -- nobody registered: only the script moves
+      refine ⟨hs.act, hs.pend, hs.park, ?_, ?_⟩
+      · intro w hw'; simp [hwn] at hw'
+      · intro hp
+        rcases hs.hope hp with h | h
+        · exact absurd hw h
+        · exact Or.inr h
+    | some w =>
+      have hsw := hs.srcw w hw
+      refine ⟨?_, ?_, ?_, ?_, ?_⟩
+      · intro t; by_cases ht : t = w
+        · subst ht; simpa using hs.act t
+        · simpa [ht] using hs.act t
+      · intro t htp
+        have := hs.pend t (by simpa using htp)
+        by_cases ht : t = w
+        · subst ht; simpa using this
+        · simpa [ht] using this
+      · intro t _ hp
+        by_cases ht : t = w
+        · subst ht; simp [Parked] at hp
+        · have hp' : Parked s t := by simpa [Parked, ht] using hp
+          simpa [ht] using hs.park t (by simp) hp'
+      · intro w' hw'; simp [hwn] at hw'
+      · intro _
+        exact Or.inr ⟨w, by simpa using hsw.2.1, by simpa using hsw.2.2.1, Or.inl (by simp)⟩
+
+theorem wakeInv_step {s : St α} (l : Label) (hs : WakeInv none s) : WakeInv none (step s l) := by
+  cases l with
+  | start c d => exact wakeInv_startReq c d hs
+  | poll c fresh =>
+    simp only [step]
+    split
+    · rename_i hact
+      cases fresh
+      · exact wakeInv_pollNext hact (wakeInv_weaken c hs)
+      · exact wakeInv_pollNext (by simpa [clearWoken] using hact) (wakeInv_clearWoken c hs)
+    · exact hs
+  | finish c => exact wakeInv_finishReq c hs
+  | fire => exact wakeInv_fireSrc hs
+
+theorem wakeInv_run {s : St α} (ls : List Label) (hs : WakeInv none s) : WakeInv none (run s ls) := by
+  induction ls generalizing s with
+  | nil => exact hs
+  | cons l r ih => exact ih (wakeInv_step l hs)
+
+/-- Progress: while a request is waiting, either a waiting request's task is runnable, or the source is
+pending and holds the waker of a parked request (so the source's next event makes that task runnable). -/
+theorem progress_of_wakeInv {s : St α} (hs : WakeInv none s) (c : Task) (hc : (s.cons c).waiting = true) :
+    (∃ w, (s.cons w).waiting = true ∧ (s.cons w).woken = true) ∨
+    (s.src.need ≠ 0 ∧ ∃ w, s.src.waker = some w ∧ Parked s w) := by
+  cases hcw : (s.cons c).woken with
+  | true => exact Or.inl ⟨c, hc, hcw⟩
+  | false =>
+    rcases hs.hope ⟨c, by simp, hc, hcw⟩ with h | ⟨w, hw1, _, hw3⟩
+    · cases hw : s.src.waker with
+      | none => exact absurd hw h
+      | some w =>
+        have := hs.srcw w hw
+        cases hww : (s.cons w).woken with
+        | true => exact Or.inl ⟨w, this.2.1, hww⟩
+        | false => exact Or.inr ⟨this.1, w, rfl, this.2.1, hww⟩
+    · rcases hw3 with h | h
+      · exact Or.inl ⟨w, hw1, h⟩
+      · cases h
+
+
+/-! ### bounded drain: a termination measure for executors that only take useful steps -/
+
+/-- `fire` events the source still needs in total -/
+def totalNeed (src : Source α) : Nat := (src.rest.map (·.1)).sum + src.endNeed
+
+/-- number of tasks `< k` whose request waits -/
+def nWaiting (k : Nat) (s : St α) : Nat := (List.range k).countP fun t => (s.cons t).waiting
+/-- number of tasks `< k` whose request waits and whose waker has fired (runnable) -/
+def nRunnable (k : Nat) (s : St α) : Nat :=
+  (List.range k).countP fun t => (s.cons t).waiting && (s.cons t).woken
+
+/-- the measure -/
+def measure (k : Nat) (s : St α) : Nat :=
+  2 * totalNeed s.src + (k + 1) * nWaiting k s + nRunnable k s
+
+/-- a step a fair executor / an eventually-yielding source takes: poll a task `< k` whose waiting
+request has been woken, or deliver an event to a pending source -/
+def Useful (k : Nat) (s : St α) : Label → Prop
+  | .poll c fresh => fresh = true ∧ c < k ∧ (s.cons c).waiting = true ∧ (s.cons c).woken = true
+  | .fire => s.src.need ≠ 0
+  | _ => False
+
+theorem countP_update (p p' : Nat → Bool) (k c : Nat) (hc : c < k) (h : ∀ t, t ≠ c → p' t = p t) :
+    (List.range k).countP p' + (p c).toNat = (List.range k).countP p + (p' c).toNat := by
+  induction k with
+  | zero => omega
+  | succ k ih =>
+    simp only [List.range_succ, List.countP_append, List.countP_cons, List.countP_nil]
+    by_cases hk : c = k
+    · subst hk
+      have : (List.range c).countP p' = (List.range c).countP p := by
+        apply List.countP_congr
+        intro t ht
+        have : t ≠ c := by have := List.mem_range.1 ht; omega
+        simp [h t this]
+      rw [this]
+      cases p c <;> cases p' c <;> simp
+    · have := ih (by omega)
+      have hk' := h k (Ne.symm hk)
+      rw [hk']
+      omega
+
+theorem countP_range_le (p : Nat → Bool) (k : Nat) : (List.range k).countP p ≤ k := by
+  have := List.countP_le_length (p := p) (l := List.range k)
+  simpa using this
+
+theorem nRunnable_le_nWaiting (k : Nat) (s : St α) : nRunnable k s ≤ nWaiting k s := by
+  unfold nRunnable nWaiting
+  apply List.countP_mono_left
+  intro t _ h
+  simp only [Bool.and_eq_true] at h
+  exact h.1
+
+theorem totalNeed_fire {src src' : Source α} {w : Option Task} (hn : src.need ≠ 0)
+    (h : src.fire = (src', w)) : totalNeed src' + 1 = totalNeed src := by
+  unfold Source.fire at h
+  simp only [hn, if_false] at h
+  unfold totalNeed
+  cases hr : src.rest with
+  | nil =>
+    simp only [hr, Prod.mk.injEq] at h
+    simp only [Source.need, hr] at hn
+    rw [← h.1]; simp; omega
+  | cons p r =>
+    obtain ⟨n, it⟩ := p
+    simp only [hr, Prod.mk.injEq] at h
+    simp only [Source.need, hr] at hn
+    rw [← h.1]; simp; omega
+
+theorem totalNeed_poll {src src' : Source α} {w : Task} {r : PollRes α}
+    (h : src.poll w = (src', r)) : totalNeed src' = totalNeed src := by
+  cases r with
+  | pending => obtain ⟨_, rfl⟩ := poll_pending h; rfl
+  | ready v =>
+    cases v with
+    | none => obtain ⟨_, _, _, rfl⟩ := poll_ready_none h; rfl
+    | some it =>
+      obtain ⟨hn, n, r, hr, rfl⟩ := poll_ready_some h
+      have : n = 0 := by simpa [Source.need, hr] using hn
+      subst this
+      simp [totalNeed, hr]
+
+theorem nWaiting_update (k : Nat) (s s' : St α) (c : Task) (hc : c < k)
+    (h : ∀ t, t ≠ c → (s'.cons t).waiting = (s.cons t).waiting) :
+    nWaiting k s' + ((s.cons c).waiting).toNat = nWaiting k s + ((s'.cons c).waiting).toNat :=
+  countP_update (fun t => (s.cons t).waiting) (fun t => (s'.cons t).waiting) k c hc h
+
+theorem nRunnable_update (k : Nat) (s s' : St α) (c : Task) (hc : c < k)
+    (h : ∀ t, t ≠ c → ((s'.cons t).waiting && (s'.cons t).woken) = ((s.cons t).waiting && (s.cons t).woken)) :
+    nRunnable k s' + ((s.cons c).waiting && (s.cons c).woken).toNat
+      = nRunnable k s + ((s'.cons c).waiting && (s'.cons c).woken).toNat :=
+  countP_update (fun t => (s.cons t).waiting && (s.cons t).woken)
+    (fun t => (s'.cons t).waiting && (s'.cons t).woken) k c hc h
+
+theorem nWaiting_congr (k : Nat) (s s' : St α)
+    (h : ∀ t, (s'.cons t).waiting = (s.cons t).waiting) : nWaiting k s' = nWaiting k s := by
+  unfold nWaiting
+  exact List.countP_congr (fun t _ => by simp [h t])
+
+theorem nRunnable_congr (k : Nat) (s s' : St α)
+    (h : ∀ t, t < k → ((s'.cons t).waiting && (s'.cons t).woken) = ((s.cons t).waiting && (s.cons t).woken)) :
+    nRunnable k s' = nRunnable k s := by
+  unfold nRunnable
+  exact List.countP_congr (fun t ht => by rw [h t (List.mem_range.1 ht)])
+
+theorem toNat_le_one (b : Bool) : b.toNat ≤ 1 := by cases b <;> simp
+
+theorem arith_leave {k N W V W' V' : Nat} (hW : W' + 1 = W) (hWk : W ≤ k) (hV : V' ≤ W') (hV1 : 1 ≤ V) :
+    2 * N + (k + 1) * W' + V' < 2 * N + (k + 1) * W + V := by
+  subst hW; rw [Nat.mul_succ]; omega
+
+/-- a useful step strictly decreases the measure -/
+theorem measure_decreases {k : Nat} {s : St α} {l : Label} (hs : WakeInv none s) (hu : Useful k s l) :
+    measure k (step s l) < measure k s := by
+  cases l with
+  | start c d => exact absurd hu (by simp [Useful])
+  | finish c => exact absurd hu (by simp [Useful])
+  | fire =>
+    have hn : s.src.need ≠ 0 := hu
+    simp only [step, fireSrc]
+    cases hf : s.src.fire with
+    | mk src' w =>
+      have hN := totalNeed_fire hn hf
+      cases w with
+      | none =>
+        have hW : nWaiting k { s with src := src' } = nWaiting k s := rfl
+        have hV : nRunnable k { s with src := src' } = nRunnable k s := rfl
+        simp only [measure, hW, hV]
+        omega
+      | some w =>
+        have hW : nWaiting k (St.wake { s with src := src' } w) = nWaiting k s :=
+          nWaiting_congr k s _ (by
+            intro t
+            by_cases ht : t = w
+            · subst ht; simp
+            · simp [ht])
+        have hV : nRunnable k (St.wake { s with src := src' } w) ≤ nRunnable k s + 1 := by
+          by_cases hwk : w < k
+          · have := nRunnable_update k s (St.wake { s with src := src' } w) w hwk
+              (by intro t ht; simp [ht])
+            have := toNat_le_one ((s.cons w).waiting && (s.cons w).woken)
+            have := toNat_le_one (((St.wake { s with src := src' } w).cons w).waiting &&
+                ((St.wake { s with src := src' } w).cons w).woken)
+            omega
+          · apply Nat.le_succ_of_le
+            apply Nat.le_of_eq
+            apply nRunnable_congr
+            intro t ht
+            have : t ≠ w := by intro e; subst e; exact hwk ht
+            simp [this]
+        have hsrc : (St.wake { s with src := src' } w).src = src' := rfl
+        simp only [measure, hsrc, hW]
+        omega
+  | poll c fresh =>
+    obtain ⟨rfl, hck, hcw, hcwk⟩ := hu
+    have hact := hs.act c hcw
+    simp only [step, hact, if_true]
+    -- clearing the flag makes `c` not runnable
+    have hW1 : nWaiting k (clearWoken s c) = nWaiting k s :=
+      nWaiting_congr k s _ (by
+        intro t
+        by_cases ht : t = c
+        · subst ht; simp [clearWoken]
+        · simp [clearWoken, ht])
+    have hV1 : nRunnable k (clearWoken s c) + 1 = nRunnable k s := by
+      have := nRunnable_update k s (clearWoken s c) c hck (by intro t ht; simp [clearWoken, ht])
+      simpa [clearWoken, hcw, hcwk] using this
+    have hN1 : totalNeed (clearWoken s c).src = totalNeed s.src := rfl
+    have hcw1 : ((clearWoken s c).cons c).waiting = true := by simpa [clearWoken] using hcw
+    have hcn1 : ((clearWoken s c).cons c).woken = false := by simp [clearWoken]
+    generalize clearWoken s c = s1 at hW1 hV1 hN1 hcw1 hcn1
+    have hWk : nWaiting k s ≤ k := countP_range_le _ k
+    have hV0 : 1 ≤ nRunnable k s := by omega
+    -- `c` leaves the waiting set, all other waiting flags stay
+    have leave : ∀ s' : St α, (s'.cons c).waiting = false →
+        (∀ t, t ≠ c → (s'.cons t).waiting = (s1.cons t).waiting) →
+        totalNeed s'.src = totalNeed s1.src → measure k s' < measure k s := by
+      intro s' h1 h2 h3
+      have := nWaiting_update k s1 s' c hck h2
+      simp only [h1, hcw1, Bool.toNat_true, Bool.toNat_false] at this
+      have hW : nWaiting k s' + 1 = nWaiting k s := by omega
+      simp only [measure, h3, hN1]
+      exact arith_leave hW hWk (nRunnable_le_nWaiting k s') hV0
+    have hc := pollNext_cases s1 c
+    generalize pollNext s1 c = r at hc
+    cases hc with
+    | cached h => exact leave _ (by simp) (by intro t ht; simp [ht]) rfl
+    | over h => exact leave _ (by simp) (by intro t ht; simp [ht]) rfl
+    | item src' it h hp =>
+      exact leave _ (by simp) (by intro t ht; simp [ht, wakeAll_cons]) (by simpa using totalNeed_poll hp)
+    | ended src' h hp =>
+      exact leave _ (by simp) (by intro t ht; simp [ht, wakeAll_cons]) (by simpa using totalNeed_poll hp)
+    | pend src' h hp =>
+      have hN := totalNeed_poll hp
+      have hW : nWaiting k (St.modCons { s1 with src := src', pending := s1.pending ++ [c] } c park)
+          = nWaiting k s1 :=
+        nWaiting_congr k s1 _ (by
+          intro t
+          by_cases ht : t = c
+          · subst ht; simp [hcw1]
+          · simp [ht])
+      have hV : nRunnable k (St.modCons { s1 with src := src', pending := s1.pending ++ [c] } c park)
+          = nRunnable k s1 :=
+        nRunnable_congr k s1 _ (by
+          intro t _
+          by_cases ht : t = c
+          · subst ht; simp [hcn1]
+          · simp [ht])
+      have hsrc : (St.modCons { s1 with src := src', pending := s1.pending ++ [c] } c park).src = src' := rfl
+      simp only [measure, hsrc, hV, hW, hN, hW1]
+      rw [← hN1]
+      omega
+
+/-- a run in which every step is useful at the moment it is taken -/
+def UsefulRun (k : Nat) : St α → List Label → Prop
+  | _, [] => True
+  | s, l :: r => Useful k s l ∧ UsefulRun k (step s l) r
+
+/-- Bounded drain: from a state satisfying the wake-up invariant, an executor that only takes useful
+steps (polls woken waiting tasks, lets the pending source deliver events) can take at most
+`measure k s` of them. -/
+theorem usefulRun_length_le {k : Nat} {s : St α} (ls : List Label) (hs : WakeInv none s)
+    (hu : UsefulRun k s ls) : ls.length + measure k (run s ls) ≤ measure k s := by
+  induction ls generalizing s with
+  | nil => simp [run]
+  | cons l r ih =>
+    have h1 := measure_decreases hs hu.1
+    have h2 := ih (wakeInv_step l hs) hu.2
+    have h3 : run s (l :: r) = run (step s l) r := rfl
+    rw [h3, List.length_cons]
+    omega
+
+
+/-- while somebody waits, a useful step exists (no stuck state) -/
+theorem useful_exists {k : Nat} {s : St α} (hs : WakeInv none s)
+    (hk : ∀ t, (s.cons t).waiting = true → t < k) (c : Task) (hc : (s.cons c).waiting = true) :
+    ∃ l, Useful k s l := by
+  rcases progress_of_wakeInv hs c hc with ⟨w, h1, h2⟩ | ⟨hn, _⟩
+  · exact ⟨.poll w true, rfl, hk w h1, h1, h2⟩
+  · exact ⟨.fire, hn⟩
+
+/-- when a poll of the source is `Ready`, every registered waker is called: nobody stays parked -/
+theorem ready_wakes_all {s : St α} (hs : WakeInv none s) (c : Task) (fresh : Bool)
+    (ha : (s.cons c).active = true) (hcur : (s.cons c).curr = s.items.length) (hn : s.src.need = 0)
+    (t : Task) : ¬ Parked (step s (.poll c fresh)) t := by
+  simp only [step, ha, if_true]
+  have key : ∀ s1 : St α, WakeInv (some c) s1 → (s1.cons c).curr = s1.items.length → s1.src.need = 0 →
+      ¬ Parked (pollNext s1 c).1 t := by
+    intro s1 hs1 hcur1 hn1
+    have hc := pollNext_cases s1 c
+    generalize pollNext s1 c = r at hc
+    cases hc with
+    | cached h => omega
+    | over h => omega
+    | pend src' h hp => exact absurd hn1 (poll_pending hp).1
+    | item src' it h hp => exact no_parked_after_ready hs1 _ _ _ rfl t
+    | ended src' h hp => exact no_parked_after_ready hs1 src' (advance ((s1.cons c).curr + 1)) s1.items rfl t
+  cases fresh
+  · exact key s (wakeInv_weaken c hs) hcur hn
+  · exact key (clearWoken s c) (wakeInv_clearWoken c hs) (by simpa [clearWoken] using hcur) hn
+
+/-- the source is polled by no label other than a poll of a stream standing at the end of the cache -/
+theorem step_polls (s : St α) (l : Label) :
+    (step s l).src.polls = s.src.polls ∨
+    ∃ c fresh, l = .poll c fresh ∧ (s.cons c).active = true ∧ (s.cons c).curr = s.items.length ∧
+      (step s l).src.polls = s.src.polls + 1 := by
+  cases l with
+  | start c d => left; simp only [step, startReq]; split <;> rfl
+  | finish c => left; simp only [step, finishReq]; split <;> rfl
+  | fire =>
+    left
+    simp only [step, fireSrc]
+    rcases fire_cases s.src with ⟨_, h⟩ | ⟨_, src', h, _, _, _, _, hp, _⟩
+    · rw [h]
+    · rw [h]; cases s.src.waker <;> exact hp
+  | poll c fresh =>
+    simp only [step]
+    split
+    · rename_i ha
+      have key : ∀ s1 : St α, (pollNext s1 c).1.src.polls = s1.src.polls ∨
+          ((s1.cons c).curr = s1.items.length ∧ (pollNext s1 c).1.src.polls = s1.src.polls + 1) := by
+        intro s1
+        have hc := pollNext_cases s1 c
+        generalize pollNext s1 c = r at hc
+        cases hc with
+        | cached h => exact Or.inl rfl
+        | over h => exact Or.inl rfl
+        | pend src' h hp => obtain ⟨_, rfl⟩ := poll_pending hp; exact Or.inr ⟨h, rfl⟩
+        | item src' it h hp =>
+          obtain ⟨_, n, r, _, rfl⟩ := poll_ready_some hp; exact Or.inr ⟨h, by simp⟩
+        | ended src' h hp =>
+          obtain ⟨_, _, _, rfl⟩ := poll_ready_none hp; exact Or.inr ⟨h, by simp⟩
+      cases fresh
+      · rcases key s with h | ⟨h1, h2⟩
+        · exact Or.inl h
+        · exact Or.inr ⟨c, false, rfl, ha, h1, h2⟩
+      · rcases key (clearWoken s c) with h | ⟨h1, h2⟩
+        · exact Or.inl h
+        · exact Or.inr ⟨c, true, rfl, ha, by simpa [clearWoken] using h1, h2⟩
+    · exact Or.inl rfl
 
 end FluentProofs.Cache
